@@ -232,6 +232,9 @@ def monitor_histories(ctx, tool, progs, n_hist, max_len, stats):
                     return False
                 last = len(cand) - 1
                 return any(x["step"] == last and x["kind"] == "output-differs" and not x.get("explained_by_version") for x in rr.get("bad") or [])
+            stats["unexplained_history_failures"] = stats.get("unexplained_history_failures", 0) + 1
+            if stats["unexplained_history_failures"] > 3:      # shrink and report the first few; the rest is counted
+                continue
             small = ddmin(upto, True, fails) if fails(upto) else upto
             sn = [names[p] if p >= 0 else "Reset" for p in small]
             used = sorted({p for p in small if p >= 0})
@@ -303,6 +306,9 @@ def monitor_perms(ctx, tool, progs, per_prog, all5_for, stats):
                     rc, rr, se = run1(tool, "perm", {"id": 0, "src": src, "data": {"order": cand, "heal": True}})
                     last = len(cand) - 1
                     return bool(rr) and any(x["step"] == last and x["kind"] == "output-differs" for x in rr.get("bad") or [])
+                stats["order_dependent_outputs"] = stats.get("order_dependent_outputs", 0) + 1
+                if stats["order_dependent_outputs"] > 3:
+                    continue
                 small = ddmin(prefix, True, fails) if fails(prefix) else prefix
                 ctx.violation("back end %s gives different output for %s when %s ran before it on the same (unaltered) module"
                               % (t, name, small[:-1]),
